@@ -344,6 +344,20 @@ class HierDictDocument(DictDocument):
                 retval.append(self._from_dict_value(ctx, i, serializer, child,
                                                                      validator))
 
+            # the occurrence attributes of the item type say how many items
+            # the array can hold.
+            if validator is self.SOFT_VALIDATION:
+                ser_attrs = self.get_cls_attrs(serializer)
+                if len(retval) < ser_attrs.min_occurs:
+                    raise ValidationError(len(retval),
+                                   "Array has %%d items, it must have at least "
+                                               "%d" % ser_attrs.min_occurs)
+
+                if len(retval) > ser_attrs.max_occurs:
+                    raise ValidationError(len(retval),
+                                   "Array has %%d items, it must have at most "
+                                               "%d" % ser_attrs.max_occurs)
+
             return retval
 
         if not issubclass(cls, ComplexModelBase):
@@ -461,7 +475,8 @@ class HierDictDocument(DictDocument):
 
         attrs = self.get_cls_attrs(cls)
         if validator is self.SOFT_VALIDATION and attrs.validate_freq:
-            self._check_freq_dict(cls, frequencies, flat_type_info)
+            self._check_freq_dict(cls, frequencies, flat_type_info,
+                                                             array_items=False)
 
         return inst
 
